@@ -31,5 +31,40 @@ fn main() {
         }
     }
     println!("sweep: {} of {} inputs misrounded", sweep_bad, n);
-    std::process::exit(if bad + sweep_bad == 0 { 0 } else { 1 });
+    let direct_bad = direct_calls();
+    std::process::exit(if bad + sweep_bad + direct_bad == 0 { 0 } else { 1 });
+}
+
+/// Second part (fix 62f3e9d): direct calls of the stage with a TRUNCATED short significand.  A definite answer is only allowed if the
+/// exact significands w and w+1 round to the same float; the stage used to answer definitely although they differ.
+fn direct_calls() -> u32 {
+    use minimal_lexical::bellerophon::bellerophon;
+    use minimal_lexical::number::Number;
+    let mut x: u64 = 0x243F6A8885A308D3;
+    let n = 1_000_000;
+    let (mut bad64, mut bad32) = (0u32, 0u32);
+    for _ in 0..n {
+        x = x.wrapping_mul(6364136223846793005).wrapping_add(1442695040888963407);
+        let bits = 1 + (x >> 58) % 50;
+        let w = (x >> 6) & ((1u64 << bits) - 1) | 1;
+        let q64 = ((x >> 30) % 500) as i32 - 300;
+        let q32 = ((x >> 30) % 70) as i32 - 40;
+        let t = |m, e, many| Number { mantissa: m, exponent: e, many_digits: many };
+        let r = bellerophon::<f64>(&t(w, q64, true));
+        if r.exp >= 0 {
+            let (lo, hi) = (bellerophon::<f64>(&t(w, q64, false)), bellerophon::<f64>(&t(w + 1, q64, false)));
+            if lo.exp >= 0 && hi.exp >= 0 && (lo.mant != hi.mant || lo.exp != hi.exp) {
+                bad64 += 1;
+            }
+        }
+        let r = bellerophon::<f32>(&t(w, q32, true));
+        if r.exp >= 0 {
+            let (lo, hi) = (bellerophon::<f32>(&t(w, q32, false)), bellerophon::<f32>(&t(w + 1, q32, false)));
+            if lo.exp >= 0 && hi.exp >= 0 && (lo.mant != hi.mant || lo.exp != hi.exp) {
+                bad32 += 1;
+            }
+        }
+    }
+    println!("direct calls, truncated short significands: f64 {} and f32 {} of {} answered definitely although w and w+1 round differently", bad64, bad32, n);
+    bad64 + bad32
 }
